@@ -193,6 +193,13 @@ pub struct Sim {
     pub coverage: HashSet<u64>,
     pub violations: Vec<Violation>,
     pub harness_error: Option<String>,
+    /// C17: pair the event number `.0` (pausing at write `.1`) with operation `.3` in mode `.2`
+    pub pair: Option<(u64, u64, String, u64)>,
+    pub record_writes: bool,
+    pub event_writes: Vec<(u64, u64, u64, String)>,
+    pub snapshot: Option<String>,
+    pub pair_answer: Option<(bool, String)>,
+    pub pair_done: bool,
     pub stop: bool,
     /// crash injection: unwind at this write boundary (1-based), see crash.rs
     pub writes_seen: u64,
@@ -207,6 +214,19 @@ pub fn abs_now(now: u64) -> u64 {
 
 impl Sim {
     pub fn new(plan: Plan, dir: PathBuf, verbose: bool) -> Sim {
+        let pair_cfg = {
+                let f = |k: &str| plan.flags.iter().find_map(|x| x.strip_prefix(k).map(|v| v.to_string()));
+                match (f("pair_event="), f("pair_write="), f("pair_mode="), f("pair_op=")) {
+                    (Some(e), Some(w), Some(m), Some(o)) => Some((
+                        e.parse().unwrap_or(0),
+                        w.parse().unwrap_or(0),
+                        m,
+                        o.parse().unwrap_or(0),
+                    )),
+                    _ => None,
+                }
+            };
+        let record_writes = plan.flags.iter().any(|x| x == "record_writes");
         let mut world = World::new(plan.chain.clone());
         // initial main chain, timestamps end at T0
         world.mine_many(0, plan.initial_blocks, T0, 8_000);
@@ -257,6 +277,12 @@ impl Sim {
             coverage: HashSet::new(),
             violations: Vec::new(),
             harness_error: None,
+            pair: pair_cfg,
+            record_writes,
+            event_writes: Vec::new(),
+            snapshot: None,
+            pair_answer: None,
+            pair_done: false,
             stop: false,
             writes_seen: 0,
             last_event_kind: String::new(),
@@ -779,7 +805,20 @@ impl Sim {
             self.now = item.at;
             set_faketime(abs_now(self.now));
             self.events += 1;
+            if self.pair.as_ref().map(|p| p.0 == self.events).unwrap_or(false) {
+                self.run_pair_event(item.ev);
+                self.stop = true;
+                self.pair_done = true;
+                break;
+            }
+            let w0 = crate::runner::writes_now();
             self.dispatch(item.ev);
+            if self.record_writes {
+                let w1 = crate::runner::writes_now();
+                if w1 > w0 && self.client.is_some() {
+                    self.event_writes.push((self.events, w0 + 1, w1, self.last_event_kind.clone()));
+                }
+            }
             if self.stop {
                 break;
             }
@@ -787,11 +826,145 @@ impl Sim {
             o.after_event(self);
             self.oracle = o;
         }
-        if self.harness_error.is_none() {
+        if self.harness_error.is_none() && !self.pair_done {
             let mut o = std::mem::take(&mut self.oracle);
             o.at_end(self);
             self.oracle = o;
         }
+    }
+
+    // ------------------------------------------------------------------ C17
+
+    /// The JSON-RPC request of paired operation `op`, built from the world.
+    fn pair_request(&self, op: u64) -> String {
+        use crate::refidx::{resolve_script, script_json};
+        use crate::plan::ScriptRef;
+        let nl = self.plan.chain.n_locks.max(1);
+        let lock = |i: usize| resolve_script(&self.world, &ScriptRef::Lock(i % nl)).0;
+        let status = |i: usize, n: u64| {
+            serde_json::json!({"script": script_json(&lock(i)), "script_type": "lock", "block_number": format!("{:#x}", n)})
+        };
+        // the same request in all three executions: numbers come from the plan, not from the state
+        let n1 = self.plan.initial_blocks / 3;
+        let n2 = self.plan.initial_blocks / 2 + 1;
+        let search = |i: usize| serde_json::json!({"script": script_json(&lock(i)), "script_type": "lock"});
+        let (method, params) = match op {
+            0 => ("set_scripts", serde_json::json!([[status(0, 0)], "all"])),
+            1 => ("set_scripts", serde_json::json!([[status(1, n1)], "partial"])),
+            2 => ("set_scripts", serde_json::json!([[status(0, 0)], "delete"])),
+            3 => ("set_scripts", serde_json::json!([[], "all"])),
+            4 => ("get_scripts", serde_json::json!([])),
+            5 => ("get_cells_capacity", serde_json::json!([search(0)])),
+            6 => ("get_cells", serde_json::json!([search(0), "asc", "0x64"])),
+            _ => ("set_scripts", serde_json::json!([[status(0, n2), status(1, 0)], "partial"])),
+        };
+        serde_json::json!({"jsonrpc": "2.0", "id": 1, "method": method, "params": params}).to_string()
+    }
+
+    fn pair_job(&self, op: u64) -> Option<crate::runner::PairJob> {
+        let c = self.client.as_ref()?;
+        Some(crate::runner::PairJob {
+            io: c.io.clone(),
+            request: self.pair_request(op),
+            seed: crate::entropy::mix(&[self.plan.seed, 0xc17, op]),
+        })
+    }
+
+    fn run_pair_b_alone(&mut self, op: u64) -> Option<String> {
+        let job = self.pair_job(op)?;
+        let rx = crate::runner::spawn_pair(job);
+        match rx.recv_timeout(std::time::Duration::from_secs(20)) {
+            Ok(r) => Some(r),
+            Err(_) => {
+                self.harness_error = Some("paired operation alone did not finish".into());
+                None
+            }
+        }
+    }
+
+    fn run_pair_event(&mut self, ev: Ev) {
+        let (_, write, mode, op) = self.pair.clone().unwrap();
+        if self.client.is_none() {
+            self.harness_error = Some("pair event without a client".into());
+            return;
+        }
+        match mode.as_str() {
+            "before" => {
+                let r = self.run_pair_b_alone(op);
+                self.dispatch(ev);
+                self.pair_answer = r.map(|r| (false, r));
+            }
+            "after" => {
+                self.dispatch(ev);
+                if self.client.is_none() {
+                    return;
+                }
+                let r = self.run_pair_b_alone(op);
+                self.pair_answer = r.map(|r| (false, r));
+            }
+            _ => {
+                let job = match self.pair_job(op) {
+                    Some(j) => j,
+                    None => return,
+                };
+                crate::runner::arm_pause(write, job);
+                self.dispatch(ev);
+                match crate::runner::join_pair() {
+                    Ok(a) => self.pair_answer = Some(a),
+                    Err(e) if e == "DEADLOCK" => {
+                        self.violate("C17", "deadlock", format!("the paired operation {} never finished after {} returned", op, self.last_event_kind));
+                    }
+                    Err(e) => self.harness_error = Some(e),
+                }
+            }
+        }
+        self.snapshot = self.c17_snapshot();
+    }
+
+    /// Everything the two operations can have changed: the raw keyspace, the in-memory
+    /// matched-blocks map, and the filter progress the peers structure remembers.
+    fn c17_snapshot(&self) -> Option<String> {
+        use rocksdb::ops::Iterate;
+        use rocksdb::{Direction, IteratorMode};
+        let c = self.client.as_ref()?;
+        let mut h: u64 = 0xcbf29ce484222325;
+        let mut n = 0u64;
+        let mut per_prefix: std::collections::BTreeMap<u8, u64> = Default::default();
+        let mode = IteratorMode::From(&[0u8][..], Direction::Forward);
+        for (k, v) in c.storage.db.iterator(mode) {
+            for b in k.iter().chain([0xffu8].iter()).chain(v.iter()) {
+                h ^= *b as u64;
+                h = h.wrapping_mul(0x100000001b3);
+            }
+            n += 1;
+            *per_prefix.entry(k[0]).or_insert(0) += 1;
+        }
+        let mut scripts: Vec<String> = c
+            .storage
+            .get_filter_scripts()
+            .iter()
+            .map(|s| format!("{}:{}@{}", matches!(s.script_type, crate::storage::ScriptType::Lock), s.script.args().raw_data().iter().map(|b| format!("{:02x}", b)).collect::<String>(), s.block_number))
+            .collect();
+        scripts.sort();
+        let mut matched: Vec<String> = c
+            .peers
+            .matched_blocks()
+            .read()
+            .unwrap_or_else(|e| e.into_inner())
+            .iter()
+            .map(|(h, (proved, block))| format!("{:#x}:{}:{}", h, proved, block.is_some()))
+            .collect();
+        matched.sort();
+        Some(format!(
+            "keys={} hash={:016x} per_prefix={:?} scripts={:?} min_filtered={} earliest_record={:?} matched_in_memory={:?}",
+            n,
+            h,
+            per_prefix,
+            scripts,
+            c.storage.get_min_filtered_block_number(),
+            c.storage.get_earliest_matched_blocks().map(|(s, n, b)| (s, n, b.len())),
+            matched
+        ))
     }
 
     fn dispatch(&mut self, ev: Ev) {
